@@ -62,3 +62,17 @@ Example C01_witness :
   StoreB.used s = 2 /\ length (StoreB.putres s) = 1 /\ length (StoreB.putq s) = 1 /\
   existsb (StoreB.owns 1 1) (StoreB.putres s) = true.
 Proof. vm_compute. auto. Qed.
+
+(* tie B, constructor wiring (theories/Edges/TieWiring.v): the capacity a user configures on a Buffer, a Fleet or a slotted
+   conveyor is the capacity parameter of the store that enforces the bound above, through every link down to simpy.Store --
+   re-read from the constructors on every run *)
+From FV Require SrcFragments TieWiring.
+Theorem C01_configured_capacity_reaches_the_store :
+  (SrcFragments.Buffer_store_capacity_wiring = SrcFragments.A_capacity /\ SrcFragments.BufferStore_base_capacity_wiring = SrcFragments.A_capacity /\
+  SrcFragments.Fleet_store_capacity_wiring = SrcFragments.A_capacity /\ SrcFragments.FleetStore_base_capacity_wiring = SrcFragments.A_capacity /\
+  SrcFragments.SlotConveyor_store_capacity_wiring = SrcFragments.A_capacity /\ SrcFragments.SlotConveyorStore_base_capacity_wiring = SrcFragments.A_capacity /\
+  SrcFragments.SlotBeltStore_base_capacity_wiring = SrcFragments.A_capacity /\ SrcFragments.ContBeltStore_base_capacity_wiring = SrcFragments.A_capacity /\
+  SrcFragments.ReservableReqStore_base_capacity_wiring = SrcFragments.A_capacity /\
+  SrcFragments.ReservablePriorityReqStore_base_capacity_wiring = SrcFragments.A_capacity).
+Proof. exact TieWiring.capacity_reaches_the_store. Qed.
+Print Assumptions C01_configured_capacity_reaches_the_store.
